@@ -105,7 +105,7 @@ class Check:
                 cid = "%s/v%d" % (r["id"], vi)
                 cases.append({"id": cid, "entry": r["entry"], "args": r["args"], "vals": vals_of(v["inputs"])})
                 meta[cid] = ("viol", r, v)
-            if witness_replay:
+            if witness_replay and len(cases) < 6000:  # cap on natively replayed witnesses per group
                 for wi, w in enumerate(r.get("witnesses") or []):
                     if w.get("approx"):
                         continue
